@@ -202,6 +202,20 @@ CHECKS["C13"] = {
     "technique": "Coq purity/frame theorems over the interpreter + differential correspondence and before/after oracle",
 }
 
+CHECKS["C02"] = {
+    "text": "Proof (Coq), value level, for both values of force_types: what serialize_bundle emits for an attribute value "
+            "(text, xsi:type, xml:lang, prov:ref under the ALWAYS_CHECK / force_types / prov:type-location-value / label-time "
+            "rules) and _extract_attributes rebuilds is, after normalisation on insertion, the same value of the same Python "
+            "kind — strings incl. prov:label and the empty string, ints, booleans, floats (float-oracle law), URIs, "
+            "language-tagged strings, references of formal attributes; datetimes, qualified-name values and foreign-typed "
+            "literals on samples. Element-tree assembly (nsmap, child order, subtype element names, bundles) is not modelled "
+            "(partial). Tie: the writer's decision compared with the model on the grid attribute class x value kind x "
+            "force_types via lxml; direct oracle: every XML-expressible generated document x force_types round trip by strict "
+            "content.",
+    "design_ref": "DESIGN.md §5 C02, §10",
+    "technique": "Coq proofs per value kind over the writer/reader decision logic + grid correspondence + strict round-trip oracle",
+}
+
 NOT_YET = {}
 
 
